@@ -200,11 +200,16 @@ func addC09Case(run *Run, a, b *Val, ts []*Val) {
 	safely(func() string {
 		an, bn := mustNode(aw), mustNode(bw)
 		d := an.Diff(bn)
+		// (what a diff that was never rendered does — inside the class KF-C04-alias it may itself not apply)
+		r0, err0 := mustNode(aw).Patch(mustNode(aw).Diff(mustNode(bw)))
 		_, _ = d.RenderPatch()
 		r, err := mustNode(aw).Patch(d)
-		if err != nil {
-			reuse = "fail after RenderPatch the same diff value no longer applies to a: " + err.Error()
-		} else if !r.Equals(bn) {
+		switch {
+		case (err == nil) != (err0 == nil):
+			reuse = fmt.Sprintf("fail after RenderPatch the same diff value applies differently to a (error %v) than a diff that was never rendered (error %v)", err, err0)
+		case err == nil && jd.VerifEncodeNode(r) != jd.VerifEncodeNode(r0):
+			reuse = "fail after RenderPatch the same diff value no longer turns a into what a diff that was never rendered turns it into"
+		case err == nil && !r.Equals(bn) && r0.Equals(bn):
 			reuse = "fail after RenderPatch the same diff value no longer turns a into b"
 		}
 		return ""
